@@ -416,7 +416,7 @@ func (e *episode) runSide(sr sideRun) {
 				refS.apply(sp, ad)
 			}
 		}
-		res := e.k.Submit(raw)
+		res := e.submit(raw)
 		realLog = append(realLog, res.String())
 		r.Hit("reorg-side-submit:" + errClass(res.String()))
 		lastHash = bl.Hash
